@@ -1,3 +1,5 @@
+import math
+
 from xdsl.dialects import arith, builtin
 from xdsl.dialects.builtin import BoolAttr, IndexType, IntegerType
 from xdsl.ir import OpResult
@@ -66,13 +68,17 @@ def _fold_const_operation(
             val = lhs.value.data * rhs.value.data
         case arith.DivfOp:
             if rhs.value.data == 0.0:
-                # this mirrors what mlir does
-                if lhs.value.data == 0.0:
+                # IEEE-754, as mlir does: 0/0 and NaN/0 are NaN, otherwise the result is
+                # an infinity whose sign is the product of the signs of both operands
+                # (the divisor may be -0.0)
+                if lhs.value.data == 0.0 or math.isnan(lhs.value.data):
                     val = float("nan")
-                elif lhs.value.data < 0:
-                    val = float("-inf")
                 else:
-                    val = float("inf")
+                    val = math.copysign(
+                        float("inf"),
+                        math.copysign(1.0, lhs.value.data)
+                        * math.copysign(1.0, rhs.value.data),
+                    )
             else:
                 val = lhs.value.data / rhs.value.data
         case _:
